@@ -1311,6 +1311,39 @@ def c18_binding_run(tier, seed):
     return res
 
 
+def c18_g2o_entry():
+    """the same rejection through the .g2o entry point: an edge line whose information block is the upper triangle of a LARGER matrix than the
+    edge admits (or of a smaller one) must not produce a graph.  -> (cases run, violations)"""
+    import tempfile
+    ok_lines = {
+        'EDGE_SE2': ('VERTEX_SE2 1 0 0 0\nVERTEX_SE2 2 1 0 0\n', 'EDGE_SE2 1 2 1 0 0', 3),
+        'EDGE_SE3:QUAT': ('VERTEX_SE3:QUAT 1 0 0 0 0 0 0 1\nVERTEX_SE3:QUAT 2 1 0 0 0 0 0 1\n', 'EDGE_SE3:QUAT 1 2 1 0 0 0 0 0 1', 6),
+        'EDGE_SE2_XY': ('VERTEX_SE2 1 0 0 0\nVERTEX_XY 2 1 1\n', 'EDGE_SE2_XY 1 2 1 1', 2),
+        'EDGE_SE3_TRACKXYZ': ('PARAMS_SE3OFFSET 0 0 0 0 0 0 0 1\nVERTEX_SE3:QUAT 1 0 0 0 0 0 0 1\nVERTEX_TRACKXYZ 2 1 1 1\n', 'EDGE_SE3_TRACKXYZ 1 2 0 1 1 1', 3)}
+    n_run, bad = 0, []
+    for tag, (head, stem, n) in ok_lines.items():
+        for k in range(1, 8):
+            tri = ' '.join('1' if i == j else '0' for i in range(k) for j in range(i, k))
+            text = head + stem + ' ' + tri + '\n'
+            pth = os.path.join(tempfile.gettempdir(), 'verif_c18_%d.g2o' % os.getpid())
+            try:
+                with open(pth, 'w') as fh:
+                    fh.write(text)
+                n_run += 1
+                try:
+                    g = Graph.from_g2o(pth)
+                    accepted = len(g._edges) == 1
+                except Exception:  # noqa
+                    accepted = False
+                if accepted != (k == n):
+                    bad.append({'what': '%s line with the upper triangle of a %dx%d information matrix (the edge admits %dx%d) was %s by Graph.from_g2o'
+                                        % (tag, k, k, n, n, 'accepted' if accepted else 'rejected'), 'text': text})
+            finally:
+                if os.path.exists(pth):
+                    os.remove(pth)
+    return n_run, bad
+
+
 def c18_replay(p):
     if 'graph' in p:
         flat, bad = binding_impl((tuple(map(tuple, p['graph'][0])), [tuple(v) for v in p['graph'][1]]))
